@@ -50,6 +50,8 @@ type site struct {
 	Subst map[string]string // printed Go sub-expression -> Coq variable
 	Vars  []string
 	Bool  bool
+	BVars []string // bool parameters (printed before Vars)
+	File  string   // source file (default tx_handler.go)
 }
 
 var inv = map[string]string{
@@ -60,9 +62,25 @@ var inv = map[string]string{
 
 var sites = []site{
 	// HandleInvokeTransaction
-	{Name: "fee_min_gas", Func: "HandleInvokeTransaction", Loc: "assign:minGas", Vars: []string{"price"}},
-	{Name: "fee_lt_min", Func: "HandleInvokeTransaction", Loc: "cond:oldBalance < minGas", Vars: []string{"old", "minGas"}, Bool: true},
-	{Name: "fee_lt_code", Func: "HandleInvokeTransaction", Loc: "cond:oldBalance < codeLenGasLimit*tx.GasPrice", Vars: []string{"old", "clg", "price"}, Bool: true},
+	// common.SafeMul itself (its two return statements and the zero test)
+	{Name: "safemul_zero", File: "common/safeMath.go", Func: "SafeMul", Loc: "cond:x == 0 || y == 0", Vars: []string{"x", "y"}, Bool: true,
+		Subst: map[string]string{"x": "x", "y": "y"}},
+	{Name: "safemul_zero_val", File: "common/safeMath.go", Func: "SafeMul", Loc: "return:0#0", Vars: nil, Subst: map[string]string{}},
+	{Name: "safemul_zero_ovf", File: "common/safeMath.go", Func: "SafeMul", Loc: "return:1#0", Vars: nil, Bool: true, Subst: map[string]string{}},
+	{Name: "safemul_val", File: "common/safeMath.go", Func: "SafeMul", Loc: "return:0#1", Vars: []string{"x", "y"},
+		Subst: map[string]string{"x": "x", "y": "y"}},
+	{Name: "safemul_ovf", File: "common/safeMath.go", Func: "SafeMul", Loc: "return:1#1", Vars: []string{"x", "y"}, Bool: true,
+		Subst: map[string]string{"x": "x", "y": "y"}},
+	// minGas, overflow = common.SafeMul(neovm.MIN_TRANSACTION_GAS, tx.GasPrice)
+	{Name: "fee_min_a", Func: "HandleInvokeTransaction", Loc: "callarg:common.SafeMul:0#0", Vars: []string{"price"}},
+	{Name: "fee_min_b", Func: "HandleInvokeTransaction", Loc: "callarg:common.SafeMul:1#0", Vars: []string{"price"}},
+	{Name: "fee_lt_min", Func: "HandleInvokeTransaction", Loc: "cond:overflow || oldBalance < minGas", BVars: []string{"ovf"}, Vars: []string{"old", "minGas"}, Bool: true,
+		Subst: map[string]string{"overflow": "ovf", "oldBalance": "old", "minGas": "minGas"}},
+	// codeLenGas, overflow := common.SafeMul(codeLenGasLimit, tx.GasPrice)
+	{Name: "fee_code_a", Func: "HandleInvokeTransaction", Loc: "callarg:common.SafeMul:0#1", Vars: []string{"clg", "price"}},
+	{Name: "fee_code_b", Func: "HandleInvokeTransaction", Loc: "callarg:common.SafeMul:1#1", Vars: []string{"clg", "price"}},
+	{Name: "fee_lt_code", Func: "HandleInvokeTransaction", Loc: "cond:overflow || oldBalance < codeLenGas", BVars: []string{"ovf"}, Vars: []string{"old", "codeLenGas"}, Bool: true,
+		Subst: map[string]string{"overflow": "ovf", "oldBalance": "old", "codeLenGas": "codeLenGas"}},
 	{Name: "fee_lt_limit", Func: "HandleInvokeTransaction", Loc: "cond:tx.GasLimit < codeLenGasLimit", Vars: []string{"limit", "clg"}, Bool: true},
 	{Name: "fee_charge_nobal_min", Func: "HandleInvokeTransaction", Loc: "callarg:costInvalidGas:1#0", Vars: []string{"old"}},
 	{Name: "fee_charge_nobal_code", Func: "HandleInvokeTransaction", Loc: "callarg:costInvalidGas:1#1", Vars: []string{"old"}},
@@ -125,6 +143,7 @@ var constNames = map[string]string{
 	"neovm.MIN_TRANSACTION_GAS": "FEE_MIN_TRANSACTION_GAS",
 	"neovm.PER_UNIT_CODE_LEN":   "FEE_PER_UNIT_CODE_LEN",
 	"math.MaxUint64":            "max_u64",
+	"MAX_UINT64":                "max_u64",
 }
 
 func pr(fset *token.FileSet, n ast.Node) string {
@@ -255,9 +274,34 @@ func u64(fset *token.FileSet, e ast.Expr, subst map[string]string) (string, erro
 }
 
 func cond(fset *token.FileSet, e ast.Expr, subst map[string]string) (string, error) {
+	if pe, ok := e.(*ast.ParenExpr); ok {
+		return cond(fset, pe.X, subst)
+	}
+	if id, ok := e.(*ast.Ident); ok {
+		if v, ok := subst[id.Name]; ok {
+			return v, nil // a bool parameter
+		}
+		if id.Name == "true" || id.Name == "false" {
+			return id.Name, nil
+		}
+	}
 	be, ok := e.(*ast.BinaryExpr)
 	if !ok {
 		return "", fmt.Errorf("condition %q is not a comparison", pr(fset, e))
+	}
+	if be.Op == token.LOR || be.Op == token.LAND {
+		l, err := cond(fset, be.X, subst)
+		if err != nil {
+			return "", err
+		}
+		r, err := cond(fset, be.Y, subst)
+		if err != nil {
+			return "", err
+		}
+		if be.Op == token.LOR {
+			return "(" + l + " || " + r + ")", nil
+		}
+		return "(" + l + " && " + r + ")", nil
 	}
 	l, err := u64(fset, be.X, subst)
 	if err != nil {
@@ -288,10 +332,23 @@ func produceFormulas(repo string) ([]byte, []string) {
 	var b bytes.Buffer
 	var errs []string
 	fmt.Fprintf(&b, "(* GENERATED by harness/drivers/c05 from %s of the current source on every run. Do not edit. *)\n", txHandler)
-	fmt.Fprintf(&b, "From Coq Require Import NArith Bool.\nFrom Ont Require Import Lib.U64 Gen.FeeConsts.\nLocal Open Scope N_scope.\n\n")
+	fmt.Fprintf(&b, "From Coq Require Import NArith Bool.\nFrom Ont Require Import Lib.U64 Gen.FeeConsts.\nLocal Open Scope N_scope.\nOpen Scope bool_scope.\n\n")
 	fset := token.NewFileSet()
-	f, err := parser.ParseFile(fset, filepath.Join(repo, txHandler), nil, 0)
-	if err != nil {
+	parsed := map[string]*ast.File{}
+	fileOf := func(rel string) (*ast.File, error) {
+		if rel == "" {
+			rel = txHandler
+		}
+		if f, ok := parsed[rel]; ok {
+			return f, nil
+		}
+		f, err := parser.ParseFile(fset, filepath.Join(repo, rel), nil, 0)
+		if err == nil {
+			parsed[rel] = f
+		}
+		return f, err
+	}
+	if _, err := fileOf(""); err != nil {
 		return []byte("Definition translator_broken_parse : unit := tt.\n"), []string{err.Error()}
 	}
 	// code_len_gas is used by dep_gas_limit: emit in the listed order but make sure it comes first
@@ -301,6 +358,11 @@ func produceFormulas(repo string) ([]byte, []string) {
 		fail := func(msg string) {
 			errs = append(errs, s.Name+": "+msg)
 			fmt.Fprintf(&b, "Definition translator_broken_%s : unit := tt. (* %s *)\n\n", s.Name, strings.ReplaceAll(msg, "*)", "* )"))
+		}
+		f, err := fileOf(s.File)
+		if err != nil {
+			fail(err.Error())
+			continue
 		}
 		fd := findFn(f, s.Func)
 		if fd == nil || fd.Body == nil {
@@ -327,6 +389,9 @@ func produceFormulas(repo string) ([]byte, []string) {
 			continue
 		}
 		params := ""
+		for _, v := range s.BVars {
+			params += " (" + v + " : bool)"
+		}
 		for _, v := range s.Vars {
 			params += " (" + v + " : N)"
 		}
